@@ -8,17 +8,30 @@ In the other direction random long recipes are executed on the real code, their 
 recorded as ndjson and validated by spec/Trace_Router.tla (which re-uses Ref)."""
 from __future__ import annotations
 
+import dataclasses
 import json
 import random
 import re
 import sys
-from typing import Any
+from typing import Any, List, Optional
 
 from ..core import Ctx, stable_hash
 from ..par import pmap
 from ..tlc import MachineryError, make_cfg, run_tlc
 
-INVS = ["RouterEquiv", "IncreasingPerFrame", "NestedBehind", "ChainOnce", "NoTwiceOnSuccess", "FirstMatch", "AbortIsLast", "EmitCase"]
+@dataclasses.dataclass
+class RNode:
+    v: int
+    kids: List["RNode"] = dataclasses.field(default_factory=list)
+
+
+@dataclasses.dataclass
+class Link:
+    v: int
+    next: Optional["Link"] = None
+
+
+INVS = ["RouterEquiv", "IncreasingPerFrame", "NestedBehind", "ChainOnce", "NoTwiceOnSuccess", "FirstMatch", "AbortIsLast", "StubIsFinal", "EmitCase"]
 
 
 # ------------------------------------------------------------------------------------------------
@@ -357,6 +370,78 @@ def nested_scenarios(ctx: Ctx) -> None:
     ctx.replayed += n
 
 
+def recursive_chains(ctx: Ctx) -> None:
+    """Router.tla StubIsFinal on the real library: chaining providers bound to a location that is re-entered recursively (through
+    the recursion stub) compose with the next provider exactly once at EVERY level of a nested datum.  Self-referential models,
+    the facade's loader()/dumper() with Chain.FIRST / Chain.LAST, predicates on the model, on the recursive field and on its
+    container; data nested three levels; expected values computed by applying the user functions once per level."""
+    from adaptix import Chain, P, Retort, dumper, loader
+    n = 0
+
+    def check(label, got, want):
+        nonlocal n
+        n += 1
+        if got != want:
+            ctx.violation({"mismatch": "recursive_chain", "label": label.split(":")[0]}, f"{label}: got {got!r}, composing exactly once at every level gives {want!r}",
+                          {"label": label, "got": repr(got), "want": repr(want)})
+    tree = {"v": 1, "kids": [{"v": 2, "kids": [{"v": 3, "kids": []}]}, {"v": 4, "kids": []}]}
+    chain_d = {"v": 1, "next": {"v": 2, "next": {"v": 3, "next": None}}}
+
+    def bump(d):                    # Chain.FIRST on the model location: runs on the raw dict before the model loader
+        return {**d, "v": d["v"] * 10}
+
+    def want_tree(d, f):
+        return RNode(f(d["v"]), [want_tree(k, f) for k in d["kids"]])
+
+    def want_link(d, f):
+        return None if d is None else Link(f(d["v"]), want_link(d["next"], f))
+    for requested in (RNode, List[RNode]):
+        datum = tree if requested is RNode else [tree, tree]
+        wrap = (lambda x: x) if requested is RNode else (lambda x: [x, x])
+        # FIRST on the model: every level sees its dict bumped once
+        r = Retort(recipe=[loader(RNode, bump, Chain.FIRST)])
+        check(f"loader(RNode, bump, FIRST) requested as {requested}", r.load(datum, requested), wrap(want_tree(tree, lambda v: v * 10)))
+        # LAST on the model: every loaded node is post-processed once
+        r = Retort(recipe=[loader(RNode, lambda o: RNode(o.v + 100, o.kids), Chain.LAST)])
+        check(f"loader(RNode, post, LAST) requested as {requested}", r.load(datum, requested), wrap(want_tree(tree, lambda v: v + 100)))
+        # FIRST on the recursive field: the list of children is reversed once at every level
+        r = Retort(recipe=[loader(P[RNode].kids, lambda xs: list(reversed(xs)), Chain.FIRST)])
+
+        def rev(d):
+            return RNode(d["v"], [rev(k) for k in reversed(d["kids"])])
+        check(f"loader(P[RNode].kids, reversed, FIRST) requested as {requested}", r.load(datum, requested), wrap(rev(tree)))
+        # LAST on the recursive field + FIRST on the model together (two chains on two locations of the cycle)
+        r = Retort(recipe=[loader(P[RNode].kids, lambda xs: xs + [RNode(0)], Chain.LAST), loader(RNode, bump, Chain.FIRST)])
+
+        def both(d):
+            return RNode(d["v"] * 10, [both(k) for k in d["kids"]] + [RNode(0)])
+        check(f"loader(kids, append, LAST) + loader(RNode, bump, FIRST) requested as {requested}", r.load(datum, requested), wrap(both(tree)))
+        # dumper side
+        obj = want_tree(tree, lambda v: v)
+        r = Retort(recipe=[dumper(RNode, lambda d: {**d, "tag": 1}, Chain.LAST)])
+
+        def tagged(d):
+            return {"v": d["v"], "kids": [tagged(k) for k in d["kids"]], "tag": 1}
+        check(f"dumper(RNode, tag, LAST) requested as {requested}", r.dump(wrap(obj), requested), wrap(tagged(tree)))
+        r = Retort(recipe=[dumper(P[RNode].kids, lambda xs: list(xs)[::-1], Chain.LAST)])
+
+        def drev(d):
+            return {"v": d["v"], "kids": [drev(k) for k in d["kids"]][::-1]}
+        check(f"dumper(P[RNode].kids, reversed, LAST) requested as {requested}", r.dump(wrap(obj), requested), wrap(drev(tree)))
+    # Optional recursion
+    r = Retort(recipe=[loader(P[Link].next, lambda d: d if d is None else {**d, "v": d["v"] + 1}, Chain.FIRST)])
+
+    def lk(d, top=True):
+        return None if d is None else Link(d["v"] + (0 if top else 1), lk(d["next"], False))
+    check("loader(P[Link].next, inc, FIRST)", r.load(chain_d, Link), lk(chain_d))
+    r = Retort(recipe=[loader(Link, lambda o: Link(-o.v, o.next), Chain.LAST)])
+    check("loader(Link, neg, LAST)", r.load(chain_d, Link), want_link(chain_d, lambda v: -v))
+    r = Retort(recipe=[loader(Link, lambda o: Link(-o.v, o.next), Chain.LAST), loader(Link, bump, Chain.FIRST)])
+    check("loader(Link, neg, LAST) + loader(Link, bump, FIRST)", r.load(chain_d, Link), want_link(chain_d, lambda v: -(v * 10)))
+    ctx.replayed += n
+    ctx.extra["recursive_chain_checks"] = n
+
+
 def _replay_chunk(items) -> dict:
     out = {"n": 0, "bad": [], "errors": []}
     for gseed, case in items:
@@ -534,6 +619,7 @@ def run(ctx: Ctx) -> None:
             ctx.case("nestsim" + k, nontrivial=len(r["log"]) > 0)
     replay_cases(ctx, sim_cases, ctx.seed + 9)
     nested_scenarios(ctx)
+    recursive_chains(ctx)
     # spec mutant: non-vacuity of the model-level check
     cfg = make_cfg(constants=dict(MaxLen=2, ResetComboOnSingle=False, WithTail=False, Req='"A"', EmitCases=False), invariants=INVS)
     res = run_tlc(ctx.scratch, "Router", cfg, tag="Router_mutant", expect_violation=True, timeout_s=600)
